@@ -16,7 +16,7 @@ SPEC = {
         ("_create_start_nodes(max_dist_init goes to the spatial query; distance, projection and relative position go unchanged into the start state)", 'start_nodes', r'^start:(spatial|one-first)'),
         ("BaseMatcher.__init__(the thresholds are the caller's: max_dist or unbounded, max_dist_init or max_dist, log(min_prob_norm) or unbounded)", 'matcher_init', r'^init:(max_dist|min_logprob)')],
     'bounded': [
-        ('cutoffs-and-nearest-points', suites.case_C05, 1500, 200000, RULE + '; ' + 'non-trivial = some candidate was cut off or the path has >= 2 states', ''),
+        ('cutoffs-and-nearest-points', suites.case_C05, 1500, 200000, RULE + '; ' + 'one case in six is a road with a missing link: match, continue_with_distance (half of them with an explicit jump radius of 5 x max_dist), match again in expansion mode - the cut-offs hold for the states reached by the jump as well; non-trivial = some candidate was cut off or the path has >= 2 states', ''),
         ('cutoffs-and-nearest-points(lat-lon)', geo_suites.case_C05_latlon, 1500, 100000,
          'universe maps and traces placed at 10 m per grid unit at 7 anchors (|lat| < 60), one case in five at regional scale (20 km per grid unit: links of 10-100 km, fixes kilometres off), half of the others with fixes a few decimetres from a node; lat-lon metric, cut-offs in '
          'metres; every emitting state of the best path against an independent spherical reference (12 cm + 1e-6); non-trivial = path with >= 2 states', '')],
